@@ -56,6 +56,31 @@ def payload_pair(r, stress):
     return gamma.make_payloads(r)
 
 
+def unserialisable(r, env):
+    """A variant of the envelope whose canonical serialisation fails."""
+    kind = r.choice(["nested 3000 deep", "a set", "bytes", "keys of mixed types", "an object", "nested 100000 deep in the signatures", "a 5000-digit integer"])
+    e = copy.deepcopy(env)
+    if kind.startswith("nested"):
+        v = 0
+        for _ in range(100000 if "100000" in kind else 3000):
+            v = [v]
+        if "signatures" in kind:
+            e["signatures"]["zz"] = v
+        else:
+            e["signed"] = {"payload": e["signed"], "zz-deep": v}
+    elif kind == "a set":
+        e["signed"] = {"payload": e["signed"], "zz": {1, 2}}
+    elif kind == "bytes":
+        e["signed"] = {"payload": e["signed"], "zz": b"raw"}
+    elif kind == "keys of mixed types":
+        e["signed"] = {"payload": e["signed"], 5: "five"}
+    elif kind == "an object":
+        e["zz"] = object()
+    else:
+        e["signed"] = {"payload": e["signed"], "zz": 10 ** 5000}
+    return kind, e
+
+
 def run_path(hist, seed, line_key, workdir, stress=False):
     r = random.Random(int.from_bytes(hashlib.sha256(b"%d|" % seed + line_key.encode()).digest()[:8], "big"))
     signing, common, auth = lib.cct("signing"), lib.cct("common"), lib.cct("authentication")
@@ -122,6 +147,22 @@ def run_path(hist, seed, line_key, workdir, stress=False):
                     data = f.read()
                 if data != twin_canon(env):
                     fail(i, "file written is not the canonical serialization of the value", got=data[:200].decode("latin-1"))
+            elif a == "write_fail":
+                with open(path, "rb") as f:
+                    stored = f.read()
+                kind, badval = unserialisable(r, env)
+                try:
+                    common.write_metadata_to_file(badval, path)
+                    raised = False
+                except (RecursionError, TypeError, ValueError, OverflowError, AttributeError):
+                    raised = True
+                with open(path, "rb") as f:
+                    now = f.read()
+                if raised and now != stored:
+                    fail(i, f"a write that failed ({kind}) changed the file stored earlier at that path", got=now[:120].decode("latin-1"))
+                elif not raised:             # this configuration can serialise it after all: put the stored file back
+                    with open(path, "wb") as f:
+                        f.write(stored)
             elif a == "load":
                 env = common.load_metadata_from_file(path)
                 with open(path, "rb") as f:
